@@ -182,3 +182,76 @@ package storage
 //@   ensures[ok.frame; C01] result == nil ==> forall c *leafCell ::
 //@              (forall i int :: 0 <= i && i < cnt(n) && key(n,i) == key ==> lc(n,i) != c) ==>
 //@              c.valueBytes == old(c.valueBytes) && c.valueSize == old(c.valueSize)
+
+// ---- LRU page cache (C15, C16) ----
+
+//@ spec func centry(e *list.Element) *cacheEntry { e.Value.(*cacheEntry) }
+//@ spec func lruAt(lru *LRUCache, i int) *list.Element { listAt(lru.list, i) }
+//@ spec func lruLen(lru *LRUCache) int { listLen(lru.list) }
+//@ spec pred lruInv(lru *LRUCache) {
+//@   lru.list != nil && lru.cache != nil && list.listWF(lru.list) && len(lru.cache) == lruLen(lru) &&
+//@   (forall i int :: 0 <= i && i < lruLen(lru) ==>
+//@        typeof(lruAt(lru,i).Value) == typ(*cacheEntry) && centry(lruAt(lru,i)) != nil && centry(lruAt(lru,i)).val != nil &&
+//@        has(lru.cache, centry(lruAt(lru,i)).key) && lru.cache[centry(lruAt(lru,i)).key] == lruAt(lru,i)) &&
+//@   (forall k any :: has(lru.cache, k) ==> lru.cache[k] != nil && listOf(lru.cache[k]) == lru.list &&
+//@        typeof(lru.cache[k].Value) == typ(*cacheEntry) && centry(lru.cache[k]) != nil && centry(lru.cache[k]).key == k) }
+//@ spec pred dirtyAt(lru *LRUCache, i int) { centry(lruAt(lru,i)).val.dirty }
+
+//@ func (lru *LRUCache) get(key any) (*btreeNode, bool)
+//@   props C15 C16
+//@   requires lruInv(lru)
+//@   modifies listAt(lru.list), listPos
+//@   ensures[inv] lruInv(lru)
+//@   ensures[found.iff] result1 <==> old(has(lru.cache, key))
+//@   ensures[found.val] result1 ==> result0 == old(centry(lru.cache[key]).val) && lruAt(lru, 0) == lru.cache[key]
+//@   ensures[found.order] result1 ==> forall x *list.Element :: x != lru.cache[key] ==>
+//@              listPos(x) == ((listOf(x) == lru.list && old(listPos(x)) < old(listPos(lru.cache[key]))) ? old(listPos(x)) + 1 : old(listPos(x)))
+//@   ensures[miss] !result1 ==> result0 == nil && (forall i int :: lruAt(lru,i) == old(lruAt(lru,i))) && (forall x *list.Element :: listPos(x) == old(listPos(x)))
+
+//@ spec pred allDirty(lru *LRUCache) { forall i int :: 0 <= i && i < lruLen(lru) ==> dirtyAt(lru, i) }
+
+//@ func (lru *LRUCache) set(key any, val *btreeNode) bool
+//@   props C15 C16
+//@   requires lruInv(lru) && val != nil && lru.maxNodes >= 0
+//@   modifies listLen(lru.list), listAt(lru.list), listPos, listOf, mapof(lru.cache), all(cacheEntry.val)
+//@   ensures[inv] lruInv(lru)
+//@   ensures[capacity] old(lruLen(lru)) <= lru.maxNodes ==> lruLen(lru) <= lru.maxNodes
+//@   ensures[stored] result ==> has(lru.cache, key) && centry(lru.cache[key]).val == val && lruAt(lru, 0) == lru.cache[key]
+//@   ensures[hit] old(has(lru.cache, key)) ==> result && lruLen(lru) == old(lruLen(lru)) && lru.cache[key] == old(lru.cache[key]) &&
+//@              (forall k any :: has(lru.cache, k) == old(has(lru.cache, k)))
+//@   ensures[hit.vals] old(has(lru.cache, key)) ==> forall c *cacheEntry :: c != centry(lru.cache[key]) ==> c.val == old(c.val)
+//@   ensures[room] !old(has(lru.cache, key)) && old(lruLen(lru)) != lru.maxNodes ==> result && lruLen(lru) == old(lruLen(lru)) + 1 &&
+//@              (forall k any :: old(has(lru.cache, k)) ==> has(lru.cache, k) && lru.cache[k] == old(lru.cache[k])) &&
+//@              (forall i int :: 0 <= i && i < old(lruLen(lru)) ==> lruAt(lru, i + 1) == old(lruAt(lru, i)))
+//@   ensures[refused.iff] !result <==> (!old(has(lru.cache, key)) && old(lruLen(lru)) == lru.maxNodes && old(allDirty(lru)))
+//@   ensures[refused.frame] !result ==> lruLen(lru) == old(lruLen(lru)) && (forall i int :: lruAt(lru,i) == old(lruAt(lru,i))) &&
+//@              (forall k any :: has(lru.cache, k) == old(has(lru.cache, k)) && lru.cache[k] == old(lru.cache[k]))
+//@   ensures[evict.lastclean] !old(has(lru.cache, key)) && old(lruLen(lru)) == lru.maxNodes && !old(allDirty(lru)) ==> result &&
+//@              lruLen(lru) == old(lruLen(lru)) &&
+//@              (exists p int :: 0 <= p && p < old(lruLen(lru)) && !old(dirtyAt(lru, p)) &&
+//@                  (forall q int :: p < q && q < old(lruLen(lru)) ==> old(dirtyAt(lru, q))) &&
+//@                  !has(lru.cache, old(centry(lruAt(lru, p)).key)) &&
+//@                  (forall k any :: old(has(lru.cache, k)) && k != old(centry(lruAt(lru, p)).key) ==> has(lru.cache, k) && lru.cache[k] == old(lru.cache[k])))
+//@   ensures[neverdirty] forall k any :: old(has(lru.cache, k)) && old(centry(lru.cache[k]).val.dirty) ==> has(lru.cache, k)
+//@   ensures[vals.kept] !old(has(lru.cache, key)) ==> forall c *cacheEntry :: !fresh(c) ==> c.val == old(c.val)
+//@   loop 1 invariant cur == nil ==> allDirty(lru)
+//@   loop 1 invariant cur != nil ==> listOf(cur) == lru.list && 0 <= listPos(cur) && listPos(cur) < lruLen(lru) &&
+//@              (forall q int :: listPos(cur) < q && q < lruLen(lru) ==> dirtyAt(lru, q))
+//@   loop 1 decreases cur == nil ? 0 : listPos(cur) + 1
+
+//@ func NewLRU(maxNodes int) *LRUCache
+//@   props C15
+//@   requires maxNodes >= 0
+//@   modifies listLen, listAt, listPos, listOf
+//@   ensures fresh(result) && lruInv(result) && lruLen(result) == 0 && result.maxNodes == maxNodes
+
+//@ func (f *fileStore) setCache(key any, val *btreeNode) error
+//@   props C15 C16
+//@   requires f.cache != nil && lruInv(f.cache) && val != nil && f.cache.maxNodes >= 0
+//@   modifies listLen(f.cache.list), listAt(f.cache.list), listPos, listOf, mapof(f.cache.cache), all(cacheEntry.val)
+//@   ensures[inv] lruInv(f.cache)
+//@   ensures[full.iff] (result != nil) <==> (!old(has(f.cache.cache, key)) && old(lruLen(f.cache)) == f.cache.maxNodes && old(allDirty(f.cache)))
+//@   ensures[full.err] result != nil ==> result == ErrLRUCacheFull
+//@   ensures[stored] result == nil ==> has(f.cache.cache, key) && centry(f.cache.cache[key]).val == val
+//@   ensures[neverdirty] forall k any :: old(has(f.cache.cache, k)) && old(centry(f.cache.cache[k]).val.dirty) ==> has(f.cache.cache, k)
+//@   ensures[capacity] old(lruLen(f.cache)) <= f.cache.maxNodes ==> lruLen(f.cache) <= f.cache.maxNodes
